@@ -63,8 +63,7 @@ def emit_fn(fn):
         note("R21_ctor_init", n)
         body = "\n/* R21: mem-initialisers */\n" + init + body
 
-    body, hoisted = X.r_hoist_statics(body, fn.key)
-    note("R18_hoist_static", len(hoisted))
+    hoisted = []
     # other hidden-state keywords are not rewritten: they stay and fail the C compile -> exit 2,
     # except 'mutable' which check_residue reports.
     if fn.throws or re.search(r"\bthrow\b", X.blank_comments_and_strings(body)):
@@ -78,6 +77,8 @@ def emit_fn(fn):
     body, n = X.r_functional_cast(body); note("R1b_functional_cast", n)
     body, n = X.r_brace_scalar_init(body); note("R1c_brace_init", n)
     body, n = X.r_if_constexpr(body); note("R6_if_constexpr", n)
+    body, hoisted = X.r_hoist_statics(body, fn.key)      # after type rewriting, so that the hoisted declaration is C
+    note("R18_hoist_static", len(hoisted))
     if fn.pack:
         body, n = X.r_pack_return(body, *fn.pack); note("R8_pack", n)
         body, n = X.r_fold_or(body, fn.pack[0], fn.pack[1]); note("R8_fold", n)
@@ -161,7 +162,8 @@ def emit_fn(fn):
     out.append("#ifndef CONTRACT_%s\n#define CONTRACT_%s(...)\n#endif" % (fn.key, fn.key))
     for k in range(nloops):
         out.append("#ifndef LOOP_%s_%d\n#define LOOP_%s_%d\n#endif" % (fn.key, k, fn.key, k))
-    out.append("%s %s(%s)" % (fn.ret, fn.key, ", ".join(params) if params else "void"))
+    proto = "%s %s(%s)" % (fn.ret, fn.key, ", ".join(params) if params else "void")
+    out.append(proto)
     out.append("CONTRACT_%s(%s)" % (fn.key, ", ".join(cnames)))
     out.append("{" + fn.extra_pre + body + fn.extra_post + "}")
     if fn.dummy_ret is not None:
@@ -177,6 +179,7 @@ def emit_fn(fn):
         "loops": nloops,
         "params": pnames,
         "cxx_header": " ".join(loc.header.split())[:400],
+        "c_prototype": proto,
     }
     return text, report
 
@@ -297,6 +300,11 @@ class Unit:
                     queue.append(h)
         # helpers first (they are called by the functions that discovered them)
         ordered = [e for e in emitted if e[0].auto] + [e for e in emitted if not e[0].auto]
+        # forward declarations: helpers are emitted first but may call functions defined later (an implicit
+        # declaration would silently give them the return type int)
+        parts.append("/* forward declarations */")
+        for fn, t, r in ordered:
+            parts.append(r["c_prototype"] + ";")
         for fn, t, r in ordered:
             if fn.auto:
                 r["auto_extracted_helper"] = True
